@@ -21,8 +21,9 @@ import (
 
 	"istio.io/istio/pilot/pkg/xds"
 	v3 "istio.io/istio/pilot/pkg/xds/v3"
-	"istio.io/istio/pkg/util/sets"
 	xdsfake "istio.io/istio/pilot/test/xds"
+	"istio.io/istio/pkg/util/sets"
+	"verifharness/internal/idle"
 	"verifharness/internal/quiet"
 	"verifharness/internal/vh"
 	"verifharness/internal/xdsshim"
@@ -39,7 +40,7 @@ func main() {
 			"After each stimulus a barrier request decides whether the server answered. Non-trivial: a sequence containing at least one must-respond and one must-be-silent stimulus; distinct by the sequence text. " +
 			"Extension strata (same construction, own case-name prefixes): ecds/ (sidecar, ECDS from EnvoyFilter EXTENSION_CONFIG patches and a WasmPlugin), sds/ (router on an authenticated stream, kubernetes:// secrets), " +
 			"amb/ (ztunnel node, delta only: istio.workload.Address with explicit subscribe/unsubscribe letters over {*,pod ip,service vip,node-local pod ip,unknown ip} in wildcard and on-demand mode, and istio.security.Authorization), " +
-			"grpc/ (Metadata.Generator=grpc, SotW, every type by name), api/ (Metadata.Generator=api, ServiceEntry kind as a wildcard type); forced and keyed push letters; thorough enumerates length 3 of the extension strata over the alphabet without the garbage nonce. " +
+			"grpc/ (Metadata.Generator=grpc, SotW, every type by name), api/ (Metadata.Generator=api, ServiceEntry kind as a wildcard type); forced and keyed push letters; thorough enumerates length 3 of the extension strata over the alphabet without the garbage nonce, quick only those of length 3 that start with an unsubscribe of the warmed ECDS / SDS type (every way of re-opening a type whose record the server has deleted). " +
 			"conc/: a conformant auto-ACKing client runs a PRNG conversation while a pusher goroutine issues forced and keyed ConfigUpdates at PRNG points without any barrier; judged only on crash, bounded responses, silence within K ACK rounds once the control plane is idle, final record = last request, nonce uniqueness.",
 		Assumptions: []string{
 			"the executable protocol model is our reading of the xDS protocol as restated by the property (first request / added names / reconnect => respond; ACK, NACK, stale nonce => silent); anything else is unspecified and only counted towards the loop bound",
@@ -47,6 +48,8 @@ func main() {
 			"a recovered panic in the stream handler is reported as a crash: istiod installs no recover interceptor",
 			"generator-managed Address subscriptions: the generator adds names (uid / namespace/hostname form) to the record by itself, so the record clause compares the record restricted to the names the client can mention (network/ip form) and the Wildcard flag; switching between wildcard and named mode after the opening request, explicit names on a wildcard subscription, re-subscription of a name already on record and unsubscribe-only requests are unspecified",
 			"features.EnableAmbient is switched on in-process for the ambient server only (the flags derived from it at init keep their non-ambient defaults)",
+			"SotW nonces are scoped to the stream: while the server has sent nothing for a type since its record was (re)created there is no current nonce and 'stale' is undefined, so a stale/garbage nonce is unspecified there; a nonce presented after the client itself re-opened the type with an empty nonce (and got no reply) is unspecified too (self-contradicting client). A re-open that carries the nonce the client holds keeps its must-respond obligations",
+			"concurrent stratum: schedules are not reproducible; a witness carries the script, and the message order can be replayed as a sequential case with stale-nonce letters",
 		},
 		Anchors:          []string{"pkg/xds/server.go", "pilot/pkg/xds/delta.go", "pilot/pkg/xds/ads.go"},
 		CrashIsViolation: true,
@@ -135,6 +138,10 @@ type letter struct {
 	Err   bool   // error_detail present
 	// managed types (Address): indices into aNames
 	Sub, Unsub []int
+	// workload health probe (type istio.v1.HealthInformation, as istio-agent sends it: no names, error_detail when
+	// unhealthy); Node: the probe carries the node (it never counts as the stream's first request)
+	Health bool
+	Node   bool
 }
 
 var nameSets = [][]int{{}, {0}, {0, 1}, {3}} // indices into names[type]; 3 = nonexistent
@@ -145,6 +152,16 @@ func (l letter) String() string {
 			return "push:" + l.Kind
 		}
 		return "push"
+	}
+	if l.Health {
+		s := "HEALTH/ok"
+		if l.Err {
+			s = "HEALTH/bad"
+		}
+		if l.Node {
+			s += "/node"
+		}
+		return s
 	}
 	s := l.Type
 	switch {
@@ -279,21 +296,35 @@ var aCombos = []struct {
 	sub, unsub []int
 	withErr    bool
 }{
-	{nil, nil, true},                // no names: wildcard open / plain ACK / spontaneous request without change
-	{[]int{0}, nil, false},          // +*
-	{[]int{1}, nil, true},           // +ip1
-	{[]int{1, 2}, nil, false},       // +ip1 +vip
-	{[]int{3}, nil, false},          // +nx
-	{[]int{0}, []int{0}, false},     // +* -* : the documented way to open a subscription to nothing
-	{nil, []int{1}, true},           // -ip1
-	{nil, []int{0}, false},          // -*
-	{[]int{4}, nil, false},          // +ip3 (a pod on the ztunnel's own node: the generator subscribes it by itself)
+	{nil, nil, true},            // no names: wildcard open / plain ACK / spontaneous request without change
+	{[]int{0}, nil, false},      // +*
+	{[]int{1}, nil, true},       // +ip1
+	{[]int{1, 2}, nil, false},   // +ip1 +vip
+	{[]int{3}, nil, false},      // +nx
+	{[]int{0}, []int{0}, false}, // +* -* : the documented way to open a subscription to nothing
+	{nil, []int{1}, true},       // -ip1
+	{nil, []int{0}, false},      // -*
+	{[]int{4}, nil, false},      // +ip3 (a pod on the ztunnel's own node: the generator subscribes it by itself)
+}
+
+var healthLetters = []letter{{Health: true}, {Health: true, Err: true}, {Health: true, Node: true}, {Health: true, Err: true, Node: true}}
+
+func hasHealth(seq []letter) bool {
+	for _, l := range seq {
+		if l.Health {
+			return true
+		}
+	}
+	return false
 }
 
 func alphabetWorld(w *world, t string, nonces []string) []letter {
 	out := []letter{{Push: true}}
 	for _, k := range w.pushKinds {
 		out = append(out, letter{Push: true, Kind: k})
+	}
+	if w.health {
+		out = append(out, healthLetters...)
 	}
 	if managed[t] {
 		for _, cb := range aCombos {
@@ -322,6 +353,8 @@ func alphabetWorld(w *world, t string, nonces []string) []letter {
 
 var allNonces = []string{"empty", "current", "stale", "garbage"}
 
+const healthType = "type.googleapis.com/istio.v1.HealthInformation"
+
 // enumerateWorld lists every sequence of length <= fullLen over the full alphabet and, beyond that up to
 // maxLen, over the alphabet without the garbage nonce (on the server side garbage and stale take the same
 // branch; what differs is only what the client had received before).
@@ -341,7 +374,8 @@ func enumerateWorld(w *world, fullLen, maxLen int) []seqCase {
 								allPush = false
 							}
 						}
-						if !allPush {
+						// the health world repeats the legacy alphabet: only sequences with a probe are new
+						if !allPush && (!w.health || hasHealth(prefix)) {
 							out = append(out, seqCase{world: w.name, proto: proto, warm: warm, seq: append([]letter(nil), prefix...)})
 						}
 					}
@@ -353,7 +387,7 @@ func enumerateWorld(w *world, fullLen, maxLen int) []seqCase {
 					}
 				}
 				rec(nil, full, fullLen)
-				if maxLen == fullLen && warm != "bare" && !wildcard[t] && !managed[t] && !namedWildcard[t] {
+				if maxLen == fullLen && warm != "bare" && !wildcard[t] && !managed[t] && !namedWildcard[t] && !w.health {
 					// quick tier only (thorough enumerates all of length 3): the length-3 sequences that start with an
 					// unsubscribe of the warmed type, i.e. every way of re-opening a type whose record the server has
 					// deleted while the client still holds its nonce
@@ -378,7 +412,7 @@ func enumerateWorld(w *world, fullLen, maxLen int) []seqCase {
 									allPush = false
 								}
 							}
-							if !allPush {
+							if !allPush && (!w.health || hasHealth(prefix)) {
 								out = append(out, seqCase{world: w.name, proto: proto, warm: warm, seq: append([]letter(nil), prefix...)})
 							}
 						}
@@ -409,6 +443,10 @@ func randomSeqWorld(r *rand.Rand, w *world) seqCase {
 				l.Kind = w.pushKinds[k-1]
 			}
 			sc.seq = append(sc.seq, l)
+			continue
+		}
+		if w.health && (r.Intn(6) == 0 || (i == 0 && r.Intn(3) == 0)) {
+			sc.seq = append(sc.seq, healthLetters[r.Intn(len(healthLetters))])
 			continue
 		}
 		t := w.randomMix[r.Intn(len(w.randomMix))]
@@ -495,6 +533,11 @@ func parseLetter(s string) (letter, bool) {
 	}
 	if strings.HasPrefix(s, "push:") {
 		return letter{Push: true, Kind: s[5:]}, true
+	}
+	for _, h := range healthLetters {
+		if h.String() == s {
+			return h, true
+		}
 	}
 	f := strings.Split(s, "/")
 	if len(f) < 2 || len(f) > 3 {
@@ -639,7 +682,7 @@ func run(c *vh.Ctx) {
 	}
 	// extension strata, grouped by server kind: ext (ecds, sds, grpc, api), then the concurrent stratum on
 	// ext, then amb and the concurrent stratum on amb
-	for _, wn := range []string{"ecds", "sds", "grpc", "api", "conc-ext", "amb", "conc-amb"} {
+	for _, wn := range []string{"hp", "ecds", "sds", "grpc", "api", "conc-ext", "amb", "conc-amb"} {
 		if !only[wn] {
 			continue
 		}
@@ -678,7 +721,7 @@ func run(c *vh.Ctx) {
 
 // strataFilter: development aid (XDSPROTO_ONLY=legacy,ecds,...); unset = everything.
 func strataFilter() map[string]bool {
-	all := []string{"", "ecds", "sds", "grpc", "api", "conc-ext", "amb", "conc-amb"}
+	all := []string{"", "hp", "ecds", "sds", "grpc", "api", "conc-ext", "amb", "conc-amb"}
 	out := map[string]bool{}
 	v := os.Getenv("XDSPROTO_ONLY")
 	if v == "" {
@@ -910,16 +953,37 @@ func (cl *client) doBarrier() string {
 		}
 		return "closed"
 	}
-	select {
-	case <-cl.barrier:
-		return ""
-	case <-cl.done():
-		if cl.panicked() != "" {
-			return "panic"
+	deadline := time.Now().Add(60 * time.Second)
+	for {
+		select {
+		case <-cl.barrier:
+			return ""
+		case <-cl.done():
+			if cl.panicked() != "" {
+				return "panic"
+			}
+			return "closed"
+		case <-time.After(250 * time.Millisecond):
 		}
-		return "closed"
-	case <-time.After(60 * time.Second):
-		return "lost"
+		// No echo yet. If the whole process is at rest (every goroutine parked where only another goroutine can wake
+		// it, no timer waits: internal/idle) the echo can never come: the server is not processing this stream's
+		// requests. That is a decided fact, not a timeout.
+		if ok, _ := idle.Wait(nil, 2*time.Second); ok {
+			select {
+			case <-cl.barrier:
+				return ""
+			default:
+			}
+			select {
+			case <-cl.done():
+				continue
+			default:
+			}
+			return "stuck"
+		}
+		if time.Now().After(deadline) {
+			return "lost"
+		}
 	}
 }
 
@@ -959,7 +1023,9 @@ const (
 	mustBeSilent
 )
 
-func (e expectation) String() string { return [...]string{"unspecified", "must-respond", "must-be-silent"}[e] }
+func (e expectation) String() string {
+	return [...]string{"unspecified", "must-respond", "must-be-silent"}[e]
+}
 
 func namesOf(t string, idx int) []string {
 	var out []string
@@ -1013,7 +1079,7 @@ func resolveNonce(st *typeState, nonceKind string) (nonce, effKind string) {
 }
 
 // runSequence returns true when the server must be abandoned (panic observed).
-func runSequence(c *vh.Ctx, s *server, sc seqCase, conID int) bool {
+func runSequence(c *vh.Ctx, s *server, sc seqCase, conID int) (abandon bool) {
 	w := worlds[sc.world]
 	wl := worldLabel(w)
 	ds := s.srv.Discovery
@@ -1022,9 +1088,24 @@ func runSequence(c *vh.Ctx, s *server, sc seqCase, conID int) bool {
 		return false
 	}
 	cl := newClient(c, s, w, sc.proto, conID)
-	defer cl.close()
+	var checkPanic func(where string) bool
+	// every sequence ends with the client going away: the handler must return, without a panic (requests still
+	// buffered in the server are processed on the way out)
+	defer func() {
+		cl.close()
+		select {
+		case <-cl.done():
+		case <-time.After(30 * time.Second):
+			c.Inconclusive("stream handler did not return after the client went away")
+			return
+		}
+		if checkPanic != nil && checkPanic("the client went away") {
+			abandon = true
+		}
+	}()
 	nd := w.node(conID)
-	first := true // node must be set on the first request of the stream
+	first := true   // node must be set on the first request of the stream
+	probeMark := -1 // responses seen when a health probe led the stream (nothing real sent yet), -1 = none pending
 	conformant := true
 	lastWasNack := map[string]bool{}
 	sawRespond, sawSilent := false, false
@@ -1092,7 +1173,7 @@ func runSequence(c *vh.Ctx, s *server, sc seqCase, conID int) bool {
 	}
 
 	panicReported := false
-	checkPanic := func(where string) bool {
+	checkPanic = func(where string) bool {
 		if p := cl.panicked(); p != "" {
 			if !panicReported {
 				panicReported = true
@@ -1126,9 +1207,20 @@ func runSequence(c *vh.Ctx, s *server, sc seqCase, conID int) bool {
 			}
 			c.Inconclusive("stream closed by server: " + errString(cl))
 			return nil, false, false
+		case "stuck":
+			c.Violation("request-never-processed:"+sc.proto, fmt.Sprintf("the server does not process the requests of the stream any more (whole process at rest, barrier not echoed) after %s in %s", where, sc.String()),
+				map[string]any{"sequence": sc.String()})
+			return nil, false, false
 		default:
 			c.Inconclusive("barrier lost")
 			return nil, false, false
+		}
+		if probeMark >= 0 {
+			// responses that arrived after a probe that led the stream and before this request was sent
+			if before > probeMark {
+				c.Violation("response-to-health-probe:"+sc.proto, fmt.Sprintf("%d discovery responses after a health probe at the head of the stream in %s", before-probeMark, sc.String()), map[string]any{"sequence": sc.String()})
+			}
+			probeMark = -1
 		}
 		return cl.responsesSince(before), true, false
 	}
@@ -1586,6 +1678,60 @@ func runSequence(c *vh.Ctx, s *server, sc seqCase, conID int) bool {
 			for t, n := range per {
 				if n > 2 {
 					c.Violation("push-response-burst:"+sc.proto+":"+t, fmt.Sprintf("%d responses of type %s to one push in %s", n, t, sc.String()), nil)
+				}
+			}
+			continue
+		}
+		if l.Health {
+			// a health probe is never answered with a discovery response and changes no subscription: the model is
+			// not touched, every other stimulus keeps its classification
+			var ed *status.Status
+			if l.Err {
+				ed = &status.Status{Code: 13, Message: "application is not healthy"}
+			}
+			sendProbe := func() bool {
+				if sc.proto == "sotw" {
+					r := &discovery.DiscoveryRequest{TypeUrl: healthType, ErrorDetail: ed}
+					if l.Node {
+						r.Node = nd
+					}
+					return cl.sotw.Request(r)
+				}
+				r := &discovery.DeltaDiscoveryRequest{TypeUrl: healthType, ErrorDetail: ed}
+				if l.Node {
+					r.Node = nd
+				}
+				return cl.delta.Request(r)
+			}
+			c.Count("health_probes", 1)
+			if first {
+				// nothing real has been sent: the probe is skipped by the server, there is nothing to wait for yet
+				c.Count("health_probes_leading_the_stream", 1)
+				if probeMark < 0 {
+					probeMark = cl.respLen()
+				}
+				if !sendProbe() {
+					if checkPanic("health probe") {
+						return true
+					}
+					c.Inconclusive("stream closed by server: " + errString(cl))
+					return false
+				}
+				continue
+			}
+			got, ok, tainted := exchange("health probe", sendProbe)
+			if !ok {
+				return tainted
+			}
+			if trace {
+				fmt.Fprintf(os.Stderr, "TRACE %s => expect no discovery response, got %s\n", l.String(), traceResp(cl, got))
+			}
+			if len(got) > 0 {
+				c.Violation("response-to-health-probe:"+sc.proto, fmt.Sprintf("%d discovery responses to a health probe in %s", len(got), sc.String()), map[string]any{"sequence": sc.String()})
+				for _, r := range got {
+					if ts := cl.ts[cl.short(r.TypeURL)]; ts != nil {
+						ts.nonces = append(ts.nonces, r.Nonce)
+					}
 				}
 			}
 			continue
